@@ -212,7 +212,7 @@ pub fn prop() -> Prop<Case> {
             "an injected failure has no side effect on the directory (the operation is not attempted)",
             "faults are injected at transport-operation granularity via the verif_hooks interceptor",
         ],
-        cases: |t| t.pick(48, 600),
+        cases: |t| t.pick(48, 400),
         strategy,
         run,
         enumerate: None,
